@@ -244,7 +244,16 @@ def gen_C07(rng, tier):
         scn["procs"].append(second)
         # outcomes must not depend on the attempt for the model to be exact
     else:
-        scn["procs"].append({"xp": "x0", "plan": simple_plan(rng, n)})
+        plan = simple_plan(rng, n)
+        if rng.random() < 0.25:
+            # a failed job is submitted again (and then succeeds): what was cancelled stays cancelled,
+            # leaving the experiment still reports the failure
+            x = rng.randrange(n)
+            scn["tasks"][x]["out"] = [rng.choice(["exit1", "exc"]), "ok"]
+            plan += [["wait", x], ["resubmit", x]]
+            if rng.random() < 0.6:
+                plan.append(["wait", x])
+        scn["procs"].append({"xp": "x0", "plan": plan})
     maybe_trace(rng, scn, 0.1)
     return scn
 
@@ -256,8 +265,9 @@ def gen_C08(rng, tier):
     add_tokens(rng, scn, kinds=("file", "proc") if nproc == 1 else ("file",), p_task=0.85)
     if rng.random() < 0.25:
         add_failures(rng, scn, 0.25)
+    same_jobs = rng.random() < 0.35      # every scheduler runs the same jobs (holdings of one job by several processes)
     for i in range(nproc):
-        sub = None if i == 0 else sorted(rng.sample(range(n), rng.randint(1, n)))
+        sub = None if (i == 0 or same_jobs) else sorted(rng.sample(range(n), rng.randint(1, n)))
         disjoint = rng.random() < 0.5
         spec = {"xp": "x%d" % i, "plan": simple_plan(rng, n, subset=sub, waits=rng.random() < 0.5) + [["xpwait"], ["linger"]]}
         if i > 0 and rng.random() < 0.6:
@@ -392,7 +402,7 @@ def gen_filter(rng, depth=0):
     r = rng.random()
     if depth == 0 and r < 0.35:
         op = rng.choice(["and", "or"])
-        return [op] + [gen_filter(rng, 1) for _ in range(rng.randint(2, 3))]
+        return [op] + [gen_filter(rng, 1) for _ in range(rng.choice([2, 2, 3, 3, 4, 5]))]
     var = rng.choice(["m", "k", "@state", "@name", "m", "k"])
     if var == "@state":
         vals = ["DONE", "ERROR", "RUNNING"]
